@@ -108,6 +108,7 @@ type refModel struct {
 	holding   []*refBatch
 	lastRated uint32
 	ignored   []*refBatch
+	someWindowUnavailable bool // set by convert: at least one admissible averaging window has no average for the pair
 	// observation of the real ledger used for the two inputs the model does not recompute:
 	// recorded rates (C12 owns them) and bank yields (C16 owns them)
 	unexplained []string
@@ -143,10 +144,13 @@ func (m *refModel) convert(v *LedgerView, h uint32, amt uint64, src, dst string,
 	P := m.era.AvgPeriod
 	var first uint64
 	have := false
+	m.someWindowUnavailable = false
 	for _, H := range []uint32{v.LastRatedBefore(h), h} {
 		for _, w := range v.AvgWindows(H, P) {
 			sa, da := v.AvgOver(src, w, P/2), v.AvgOver(dst, w, P/2)
 			if sa == 0 || da == 0 {
+				// under this admissible window there is no average: the conversion cannot be priced and stays pending (C17-K2)
+				m.someWindowUnavailable = true
 				continue
 			}
 			if x, ok := RefConvert(int64(amt), minU(spot[src], sa), maxU(spot[dst], da)); ok {
@@ -213,6 +217,13 @@ func (m *refModel) apply(v *LedgerView, b *refBatch, h uint32, withRates bool) (
 			x, ok := m.convert(v, h, t.Amount, t.Asset, t.Conv, recTo(i))
 			if !ok {
 				return 0, "unconvertible"
+			}
+			if m.someWindowUnavailable {
+				// which averaging window applies is not fixed by the property (C09-K1); under one of them the batch is left
+				// pending: if that is what the ledger shows, it is the admissible outcome
+				if rows := v.Batches[b.hash]; len(rows) == 1 && rows[0].Executed == 0 {
+					return 0, "unconvertible-under-an-admissible-window"
+				}
 			}
 			outs[i] = x
 			if !(bankEra && t.Conv == "PEG") {
